@@ -5,7 +5,8 @@
 //
 //	trie    a bare mpt.Trie over MemCachedStore(MemoryStore): Put / Delete / PutBatch, Flush(index)
 //	module  stateroot.Module: AddMPTBatch (+ UpdateCurrentLocal, or not = a dropped block), GC, Init
-//	chain   a core.Blockchain (pkg/neotest) with a hand-assembled storage contract
+//	chain   a core.Blockchain (pkg/neotest) with a hand-assembled storage contract; "gctick": the
+//	        node's persist / tryRunGC loop stepped by the harness (chaintick.go), "gcreal": the real Run goroutine
 //
 // After every operation all DataMPT records of the store are read back and summarised
 // (count, digest, changed records); the Lean driver keeps the model's store and prints the same
@@ -14,12 +15,18 @@
 // Stream lines:
 //
 //	mode all|latest|gc                      -> ok
+//	cfg <gcp> <p2p> <ssi> <mtb>             -> ok                (a node: GarbageCollectionPeriod, P2P extensions, StateSyncInterval, MaxTraceableBlocks)
+//	mtb <v>                                 -> mtb=<n>           (a committee tx asked Policy for MaxTraceableBlocks v; n = the value afterwards)
+//	persist                                 -> up=<puts>/<dels>  (MemCachedStore.Persist; the DataMPT records that were waiting in it)
+//	rungc                                   -> gc=<g|-> n=.. dg=.. ch=..   (Run's tryRunGC(oldPersisted): the driver predicts decision and index)
+//	tickchk <mtb> <old> <new>               -> gc=<g|->          (one tick of the real Run goroutine, from the complete log)
+//	gcl <G>                                 -> up=.. n=.. dg=.. ch=..      (Module.GC(G) on the persistent layer, nothing persisted first)
 //	blk <idx> <sub>...                      -> r=<root> n=<records> dg=<digest> ch=<changed records> | panic | err
 //	drop <idx> <sub>...                     -> r=<root>          (computed, never committed)
 //	gc <G>                                  -> n=.. dg=.. ch=..
 //	reset                                   -> ok                (restart / reopen from the root hash)
 //	get <h> <key>                           -> <value> | none    (historic read at the root of height h)
-//	restore <idx> <k>=<v>,...               -> r=<root> n=.. dg=.. ch=..   (Billet restore of the state of height idx into an empty store)
+//	restore <idx> <k>=<v>,... <sched>       -> r=<root> n=.. dg=.. ch=..   (Billet restore of the state of height idx into an empty store; sched: per restoration 1 = persisted just before it)
 //	wild                                    -> ok                (the rest of the case is not compared)
 //	sub: p:<key>:<val>  d:<key>  b:<key>=<val|del>,...
 package main
@@ -72,12 +79,16 @@ func runCase(o *hx.Out, f *hx.Flags, k int) {
 		return
 	}
 	r := prng.ForCase(f.Seed, k)
-	chainEvery := 17
+	chainEvery := 10
 	if f.Tier == "thorough" {
-		chainEvery = 40
+		chainEvery = 25
 	}
 	if k%chainEvery == chainEvery-1 {
-		runChainCase(o, f, k, r)
+		if r.Chance(3, 5) {
+			runChainTickCase(o, f, k, r)
+		} else {
+			runChainCase(o, f, k, r)
+		}
 		return
 	}
 	if k%6 == 2 {
@@ -112,6 +123,9 @@ func runAPICase(o *hx.Out, f *hx.Flags, k int, r *prng.R, c combo) {
 		maxCh = 16
 	}
 	dropCase := c.level == "module" && r.Chance(1, 5)
+	if x, ok := m.(*modM); ok && dropCase {
+		x.tick = r.Bool()
+	}
 	idx := uint32(r.Intn(2))
 	sig := c.level + "/" + c.mode
 	for b := 0; b < nBlocks && !h.dead; b++ {
@@ -134,8 +148,22 @@ func runAPICase(o *hx.Out, f *hx.Flags, k int, r *prng.R, c combo) {
 			if gi < 0 {
 				gi = 0
 			}
-			h.gc(uint32(gi))
-			sig += "G"
+			switch {
+			case r.Chance(1, 2):
+				h.gc(uint32(gi))
+				sig += "G"
+			case r.Chance(2, 3) && h.persisted >= 0:
+				// what the node does: the index is not above the persisted height
+				gl := h.persisted - int64(r.Intn(3))
+				if gl < 0 {
+					gl = 0
+				}
+				h.gcl(uint32(gl))
+				sig += "L"
+			default:
+				h.gcl(uint32(gi)) // any index: records of the upper layer may be in range
+				sig += "l"
+			}
 		}
 		if r.Chance(1, 8) {
 			if tm, ok := m.(*trieM); ok && r.Bool() {
@@ -148,7 +176,7 @@ func runAPICase(o *hx.Out, f *hx.Flags, k int, r *prng.R, c combo) {
 			sig += "R"
 		}
 		if r.Chance(1, 4) {
-			m.Persist()
+			h.persist()
 		}
 		idx++
 		if r.Chance(1, 12) {
